@@ -10,6 +10,7 @@ DataGeneratorObservations.  The loss-case machinery is shared with C03 (harness/
 """
 from __future__ import annotations
 
+import itertools
 from fractions import Fraction as Fr
 
 from harness import core
@@ -42,6 +43,11 @@ THEOREMS = [
     "Jinns.LossTerms.holds_dev_eq",
     "Jinns.LossTerms.mean_sq_dev_sub_sq_dev_mean",
     "Jinns.LossTerms.normStatio_ne_mean_of_sq_dev",
+    "Jinns.LossTerms.meanAll_map_eq_mean_of_means",
+    "Jinns.LossTerms.normStatioSpinn_closed_form",
+    "Jinns.LossTerms.mean_repTimes",
+    "Jinns.LossTerms.normNonStatioSpinn_closed_form",
+    "Jinns.LossTerms.icSpinn_closed_form",
     "Jinns.LossTerms.rowParams_observed",
     "Jinns.LossTerms.rowParams_other",
     "Jinns.LossTerms.obsRowParams_observed_wins",
@@ -129,12 +135,49 @@ def gen_pbatch_case(rng, kind, d, m, n, combo, with_ic):
     return case
 
 
+def gen_spinn_case(rng, kind, d, m, n, ratio, want, bad_ratio=False):
+    """normalisation / initial-condition terms of a separable network.  `n` rows in the inside batch (= number
+    of batch times), `ratio * n` normalisation samples (the SPINN branch repeats the times `ratio` times)."""
+    case = K.base_case(rng, kind, d, m, n)
+    case["spinn"], case["u"] = K.gen_spinn(rng, kind, d, m, R=rng.choice([1, 2]))
+    if kind == "nonstatio":
+        case["batch"]["inside"] = [[K.q(K.F(r[0]) + 1)] + r[1:] for r in case["batch"]["inside"]]
+    if "norm" in want:
+        ns = ratio * n if kind == "nonstatio" else rng.choice([1, 2, 2, 4])
+        if bad_ratio:
+            ns = ratio * n + 1
+        case["norm"] = K.gen_norm(rng, case, ns)
+    if "ic" in want and kind == "nonstatio":
+        case["ic"] = K.gen_ic(rng, case)
+        if len(case["ic"]["u0"]) != m or m > 1:
+            case["ic"]["ret"] = "vec"
+        if len(case["ic"]["u0"]) != m:
+            case["ic"]["u0"] = (case["ic"]["u0"] * m)[:m]
+    if bad_ratio:
+        case["malformed"] = True
+    return case
+
+
 PB_COMBOS = [("theta", "theta"), ("kappa", "kappa"), ("theta", "kappa"), ("kappa", "theta"),
              ("theta+kappa", "theta"), ("theta", "theta+kappa"), ("theta+kappa", "kappa+theta")]
 
 
 def gen_cases(rng, tier):
     cases = []
+    # separable networks: normalisation (stationary / non-stationary, 1 and >= 2 outputs, sample count 1x, 2x, 3x
+    # the temporal batch size) and PDE initial condition
+    for rep in range(1 if tier == "quick" else 6):
+        for d in (1, 2):
+            for m in (1, 2) if tier == "quick" else (1, 2, 3):
+                cases.append(gen_spinn_case(rng, "statio", d, m, 2, 1, {"norm"}))
+                for ratio in (1, 2, 3):
+                    n = rng.choice([1, 2]) if d == 2 else rng.choice([1, 2, 2, 4])
+                    if d == 2 and ratio == 3:
+                        n = 1
+                    cases.append(gen_spinn_case(rng, "nonstatio", d, m, n, ratio,
+                                                {"norm", "ic"} if ratio == 1 else {"norm"}))
+                cases.append(gen_spinn_case(rng, "nonstatio", d, m, rng.choice([1, 2, 4] if d == 1 else [1, 2]), 1, {"ic"}))
+    cases.append(gen_spinn_case(rng, "nonstatio", 1, 2, 2, 1, {"norm"}, bad_ratio=True))
     for kind, d in (("ode", 0), ("statio", 1), ("statio", 2), ("nonstatio", 1), ("nonstatio", 2)):
         combos = PB_COMBOS if tier == "thorough" else PB_COMBOS[:1] + rng.sample(PB_COMBOS[1:], 2)
         for rep in range(1 if tier == "quick" else 4):
@@ -163,6 +206,15 @@ def holds_obs(case, arrays, base, tol):
     lo, hi = K.sol_slice(case)
     terms = base["terms"]
     o = {"tol": K.q(tol)}
+    spinn = bool(case.get("spinn"))
+
+    def grid_of(rows):
+        # a separable network is evaluated on the tensor grid of the coordinate columns of the rows: these are
+        # its normalisation samples / initial-condition points
+        if not spinn:
+            return rows
+        cols = [[r[j] for r in rows] for j in range(len(rows[0]))]
+        return [list(p) for p in itertools.product(*cols)]
     if case.get("ic"):
         c = case["ic"]
         if kind == "ode":
@@ -180,7 +232,8 @@ def holds_obs(case, arrays, base, tol):
         else:
             rows = []
             prs = K.pb_rows(case)
-            for i, r in enumerate(arrays["inside"]):
+            pts = [[Fr(0)] + x for x in grid_of([r[1:] for r in arrays["inside"]])] if spinn else arrays["inside"]
+            for i, r in enumerate(pts):
                 x = r[1:]
                 v = ex.fn(c["u0"], [Fr(0)] + x)
                 if len(v) == 1:
@@ -189,8 +242,8 @@ def holds_obs(case, arrays, base, tol):
             o["ic_pde"] = {"value": terms["initial_condition"], "w": c["w"], "rows": rows}
     if case.get("norm"):
         c = case["norm"]
-        samples = [[K.F(x) for x in s] for s in c["samples"]]
-        sol = lambda p: [v for v in ex.uval(p)[lo:hi]]
+        samples = grid_of([[K.F(x) for x in s] for s in c["samples"]])
+        sol = lambda p: [v for v in ex.uval(p)[lo:hi]]  # (vector-valued u: all its components are averaged)
         if kind == "statio":
             o["norm_statio"] = {"value": terms["norm_loss"], "w": c["w"], "L": c["L"],
                                 "us": K.qrow([v for s in samples for v in sol(s)])}
@@ -250,7 +303,11 @@ CHECKED = ["initial_condition", "norm_loss", "observations"]
 def judge(case, obs, answer):
     base = obs["base"]
     if "error" in base:
+        if case.get("malformed") and base["error"] == "assertion_error":
+            return {"status": "ok", "clause": None, "rejected": base["error"]}
         return {"status": "violation", "clause": "evaluate-raised:" + base["error"], "detail": base.get("msg")}
+    if answer.get("model_rejected"):
+        return {"status": "disagree", "clause": "model-rejects-implementation-accepts"}
     if not answer["holds"]:
         return {"status": "violation", "clause": answer["clause"],
                 "detail": f"impl {base['terms']} model {answer.get('model_terms')}"}
@@ -289,6 +346,14 @@ def tags(case, obs):
         out.append("obs_batch=" + ("loader" if o.get("loader") else "hand"))
     if case.get("pbatch"):
         out.append("param_batch:" + case["combo"])
+    if case.get("spinn"):
+        out.append("net=spinn")
+        if case.get("norm"):
+            out.append(f"spinn_norm:{case['kind']}:m={case['m']}:samples/times="
+                       + (str(len(case['norm']['samples']) // max(1, len(case['batch']['inside'])))
+                          if case['kind'] == 'nonstatio' else "-"))
+        if case.get("ic"):
+            out.append("spinn_ic")
     if "error" in obs["base"]:
         out.append("error=" + obs["base"]["error"])
         return out
